@@ -870,6 +870,24 @@ def install(ip):
     units.install(ip, M, I)
     units.install_builtins(M, I)
 
+    @reg('builtins.array_sum')
+    def _array_sum(ip, args, kw):
+        lo, hi, fn = args
+        if not (is_sym(lo) or is_sym(hi)):
+            acc = None
+            for t in range(int(lo), int(hi)):
+                v = yield from ip.call(fn, [t], {})
+                acc = v if acc is None else (yield from ip.binop(ast.Add, acc, v))
+            if acc is None:
+                raise Unsupported('array_sum over an empty concrete range')
+            return acc
+
+        def thunk(itv):
+            v = yield from ip.call(fn, [itv], {})
+            return v
+        r = yield from ip.summarise_sum(lo, hi, thunk)
+        return r
+
     @reg('builtins.make_qty')
     def _make_qty(ip, args, kw):
         regy, mag, unit = args
